@@ -1821,8 +1821,8 @@ def slice_defaults(rng):
                     docs.append(dobj([("a", v)]))
                 for doc in docs:
                     cases.append(finish({"mode": mode, "type": St(copy.deepcopy(fa), copy.deepcopy(fb)), "doc": doc, "intent": "slice-default"}))
-    if DEFAULT_MEMO_FIXED[0]:
-        # one default text, two readings, one process
+    if True:
+        # one default text, two readings, one process (F30, repaired by 500358d)
         pads = [0]
 
         def salted(tmpl):
@@ -1838,6 +1838,72 @@ def slice_defaults(rng):
                     mode = rng.choice(["json", "key", "form", "httpx-json"])
                     steps.append({"mode": mode, "type": St(F("a", Sl(copy.deepcopy(e)), O(**{"def": d}))), "doc": dobj([])})
                 cases.append(finish({"mode": "seq", "procs1": rng.random() < 0.5, "steps": steps, "intent": "default-memo"}))
+    return cases
+
+
+def depchains(rng):
+    """optional=dep / optional=!dep chains and cycles over three fields, self-dependencies,
+    dependencies on keys that no field has, on dotted keys, on "-"; every subset of supplied fields"""
+    import itertools
+    cases = []
+    i = P("int")
+    keys = ["a", "b", "c"]
+    modes = ["json", "form", "key", "header", "path", "httpx-json", "httpx-form", "httpx-header"]
+    n = 0
+    for negs in itertools.product((False, True, None), repeat=3):
+        for shape in ("cycle", "chain", "star"):
+            n += 1
+            mode = modes[n % len(modes)]
+            fs = []
+            for j, key in enumerate(keys):
+                if negs[j] is None:
+                    o = O(opt=True) if j != 1 else None
+                else:
+                    dep = {"cycle": keys[(j + 1) % 3], "chain": keys[min(j + 1, 2)], "star": "a"}[shape]
+                    o = O(opt=True, dep=dep, neg=negs[j], range=R("[1:5]") if j == 0 else None)
+                fs.append(F(key, i if j else Ptr(i), o))
+            subsets = [ks for r in range(4) for ks in itertools.combinations(keys, r)]
+            if n % 2:
+                subsets = subsets[::2]
+            for ks in subsets:
+                pairs = [(k, scalar_for(mode, "9" if (k == "a" and n % 5 == 0) else "3")) for k in ks]
+                cases.append(finish({"mode": mode, "type": St(*copy.deepcopy(fs)), "doc": dobj(pairs), "intent": "dep-chain"}))
+    for mode in ("json", "key", "form", "header"):
+        for dep, extra in (("ghost", None), ("x.y", None), ("-", None), ("a", None), ("", None), ("x.y", "nested"), ("B", None)):
+            if dep == "B" and mode == "header":
+                continue        # header keys are compared in canonical form: B is b
+            for neg in (False, True):
+                fs = [F("a", i, O(opt=True, dep=dep, neg=neg)), F("b", i, O(opt=True))]
+                for ks in ([], ["a"], ["b"], ["a", "b"], ["a", dep], [dep]):
+                    pairs = []
+                    for k in ks:
+                        if not k:
+                            continue
+                        if k == "x.y" and extra == "nested" and mode not in STRINGY:
+                            pairs.append(("x", dobj([("y", dn("1"))])))
+                        else:
+                            pairs.append((k, scalar_for(mode, "3")))
+                    if len({k for k, _ in pairs}) != len(pairs):
+                        continue
+                    cases.append(finish({"mode": mode, "type": St(*copy.deepcopy(fs)), "doc": dobj(pairs), "intent": "dep-chain"}))
+    return cases
+
+
+def ctypes(rng):
+    """ParseJsonBody / Parse: the body counts only when it is not empty and declared as JSON"""
+    cases = []
+    i = P("int")
+    t = St(F("a", i, O(opt=True, range=R("[1:5]"))), F("b", i, O(**{"def": "2"})))
+    for ct in ("application/json", "application/json; charset=utf-8", "APPLICATION/JSON", "text/plain", "", "application/x-json",
+               "text/json", "application/jsonp", "multipart/form-data", "application/json, text/plain"):
+        for doc in (dobj([("a", dn("3"))]), dobj([("a", dn("9"))]), dobj([])):
+            for direct in (False, True):
+                if not direct and ct in ("multipart/form-data", "application/json, text/plain"):
+                    continue        # net/http refuses to read the form of such a request: not an input of the unmarshaller
+                cases.append(finish({"mode": "httpx-json", "type": copy.deepcopy(t), "doc": copy.deepcopy(doc), "ctype": ct, "direct": direct,
+                                     "intent": "content-type"}))
+        c = {"mode": "httpx-json", "type": copy.deepcopy(t), "doc": None, "raw": "{\"a\":", "ctype": ct, "direct": True, "intent": "content-type"}
+        cases.append(finish(c))
     return cases
 
 
@@ -2093,6 +2159,8 @@ class C08(Property):
             cases += tagsyntax(rng)
             cases += zeros(rng)
             cases += slice_defaults(rng)
+            cases += depchains(rng)
+            cases += ctypes(rng)
         cases += boundaries(rng, 500 if not big else 6000)
         cases += frontends(rng, 150 if not big else 1500)
         cases += broken_texts()
